@@ -29,6 +29,7 @@ type AProc struct {
 	Foreground bool              `json:"foreground"`
 	Probe      map[string]string `json:"-"` // readiness probe fields (exec.command / http_get.*)
 	ProbeKind  string            `json:"-"`
+	Extra      []string          `json:"-"` // raw YAML lines (already indented) for options without a slot above
 }
 
 // AFile is the abstract description of one configuration file.
@@ -91,7 +92,7 @@ func (f *AFile) Render() string {
 	}
 	b.WriteString("processes:\n")
 	for _, p := range f.Procs {
-		if len(p.Opts) == 0 && p.Replicas == 0 && !p.Disabled && !p.Foreground && len(p.Vars) == 0 && len(p.Env) == 0 && len(p.Deps) == 0 && p.ProbeKind == "" {
+		if len(p.Opts) == 0 && p.Replicas == 0 && !p.Disabled && !p.Foreground && len(p.Vars) == 0 && len(p.Env) == 0 && len(p.Deps) == 0 && p.ProbeKind == "" && len(p.Extra) == 0 {
 			fmt.Fprintf(&b, "  %s: {}\n", p.Name)
 			continue
 		}
@@ -155,6 +156,10 @@ func (f *AFile) Render() string {
 					fmt.Fprintf(&b, "        %s: %s\n", k, yq(p.Probe[k]))
 				}
 			}
+		}
+		for _, l := range p.Extra {
+			wrote = true
+			b.WriteString(l + "\n")
 		}
 		if !wrote {
 			b.WriteString("    command: \"true\"\n")
